@@ -62,9 +62,14 @@ fn base_init(rng: &mut Rng, hash_key: u64) -> Init {
 }
 
 fn base_profile(rng: &mut Rng, guards: bool) -> Profile {
+    let mut fams = gen::draw_fams(rng, &BASE_FAMS);
+    if guards && fams.iter().any(|(f, _)| *f == Fam::Struct) {
+        // guard of KF "CSE arrays under structural edits"
+        fams.retain(|(f, _)| *f != Fam::Array);
+    }
     Profile {
         len: rng.range(3, 40) as usize,
-        fams: gen::draw_fams(rng, &BASE_FAMS),
+        fams,
         p_undo: 0.15,
         p_redo: 0.08,
         dynamic: rng.chance(0.4),
@@ -76,7 +81,11 @@ fn base_profile(rng: &mut Rng, guards: bool) -> Profile {
 }
 
 pub fn plan(prop: &str, rng: &mut Rng, hash_key: u64) -> Plan {
-    let guards = rng.chance(0.7);
+    let guards = match std::env::var("VERIF_GUARDS").ok().as_deref() {
+        Some("1") => true,
+        Some("0") => false,
+        _ => rng.chance(0.7),
+    };
     let init = base_init(rng, hash_key);
     let mut profile = base_profile(rng, guards);
     let mut sched = Sched::default();
